@@ -606,6 +606,21 @@ class Explorer:
                     if any(a is UNKNOWN for a in args):
                         return UNKNOWN
                     return getattr(base, e.func.attr)(*args)
+            if isinstance(e.func, ast.Name) and e.func.id in ("set", "frozenset", "list", "tuple", "dict") and not e.args and not e.keywords and e.func.id not in self.func.locals:
+                # an empty container (sets and lists are modelled as tuples: membership, truth and iteration are what is asked)
+                return {} if e.func.id == "dict" else ()
+            if isinstance(e.func, ast.Name) and e.func.id in ("set", "frozenset") and len(e.args) == 1 and not e.keywords and e.func.id not in self.func.locals:
+                v = self.ev(e.args[0], env)
+                if isinstance(v, (tuple, list, frozenset, set, str, bytes)):
+                    out_ = []
+                    try:
+                        for x in v:
+                            if x not in out_:
+                                out_.append(x)
+                    except Exception:
+                        return UNKNOWN
+                    return tuple(out_)
+                return UNKNOWN
             if isinstance(e.func, ast.Name) and e.func.id in ("any", "all", "sum", "sorted", "list", "tuple") and len(e.args) == 1 and not e.keywords:
                 v = self.ev(e.args[0], env)
                 if v is UNKNOWN or isinstance(v, _Refined):
@@ -778,6 +793,16 @@ class Explorer:
                 # takes (a rule-supplied atom that raises, int(''), a missing key): so does the call.  (Explicit `raise`
                 # statements stay undecided: an abstract method's NotImplementedError says nothing about the override.)
                 raise EvalRaise(names_.pop())
+        if outs and all(o.kind == "raise" for o in outs) and callee.cls is None and callee.parent is None:
+            # a module-level function (nobody overrides it) that raises explicitly on every path for this valuation
+            # (`if BAD_RE.search(uri): raise ValueError(..)` in a parsing helper): so does the call
+            names_ = set()
+            for o in outs:
+                d = o.detail if isinstance(o.detail, str) else ""
+                nm = d.split("(", 1)[0].strip()
+                names_.add(nm if nm.replace(".", "").isidentifier() else "")
+            if len(names_) == 1 and "" not in names_:
+                raise EvalRaise(names_.pop())
         for o in outs:
             if o.kind != "return":
                 return UNKNOWN
@@ -945,6 +970,12 @@ class Explorer:
             # enclosing try of the same function may catch it), not through the exit
             self.ev(st.value, env)
             return env
+        if isinstance(st, ast.Expr) and isinstance(st.value, ast.Call):
+            # the arguments of a call statement are evaluated before the call: one that raises for this valuation
+            # (`os.initgroups(get_username(uid), gid)` for a uid without passwd entry) takes the statement's exception edges
+            for a_ in list(st.value.args) + [k_.value for k_ in st.value.keywords]:
+                if isinstance(a_, ast.Call) or any(isinstance(x_, ast.Call) for x_ in ast.walk(a_)):
+                    self.ev(a_, env)
         # an element taken out of a tracked sequence inside a larger expression (`acc.append(lines.pop(0))`): take it
         # out first, then evaluate the statement with the taken value in its place
         if isinstance(st, (ast.Expr, ast.Assign, ast.AugAssign)) and not (isinstance(st, ast.Assign) and isinstance(st.value, ast.Call) and isinstance(st.value.func, ast.Attribute)
@@ -1376,6 +1407,7 @@ class Explorer:
                             for b in (hs[:1] or targets):
                                 stack.append((b, env_s, events, path, None))
                     continue
+            env_untraced = env
             if self.call_trace and node.kind in ("stmt", "test", "for", "with") and node.ast is not None:
                 env = self._trace_calls(node, env)
             env2 = self.apply(node, env)
@@ -1383,6 +1415,12 @@ class Explorer:
             if "__raise__" in env2:
                 # the statement raises for this valuation (e.g. pop from an empty sequence): only its exception edges
                 env2 = dict(env2)
+                if self.call_trace and env is not env_untraced:
+                    # (the evaluation of the statement raised -- an argument, typically: the calls it names were not made)
+                    if self.TRACE in env_untraced:
+                        env2[self.TRACE] = env_untraced[self.TRACE]
+                    else:
+                        env2.pop(self.TRACE, None)
                 exc_name = env2.pop("__raise__")
                 for b in self._route_exc(node, exc_name):
                     env3 = env2
